@@ -25,6 +25,7 @@ RULE = (
     "get/glob incl. '**' and '..', RenderTree rows/str/by_attr, Dot/UniqueDot/Mermaid lines, Dict/Json export) is compared as label-mapped "
     "values, and the generated methods' invocation counters must stay 0. Systematic part: each single method x each behaviour x 3 bases on a "
     "fixed script. Non-trivial = class overriding >= 2 methods on a forest with a node that has >= 2 children."
+    ' Also: cachedsearch calls among the compared queries.'
 )
 ASSUMPTIONS = [
     "the harness itself touches nodes only through 'is', id() and attribute access, so every counted invocation comes from the library",
